@@ -313,6 +313,58 @@ def _one(args):
     return dict(violations=_dedup(out), counts=counts, outcome=str(sig))
 
 
+def _version_one(args):
+    """a placement / replacement that names a market version is executed against the version of the book that prevails
+    when it takes effect: a version change between the request and that update lapses it (as does a wrong version),
+    no change or no version named leaves it alone."""
+    kind, mv, bump, lat, gap = args
+    lat_s = LAT[lat]["replace_latency" if kind == "replace" else "place_latency"]
+    eff = int(lat_s * 1000) + 30  # the update at which the request takes effect
+    before = max(1, min(gap, eff - 1))
+    if bump == "none":
+        mids = [[before, ["Q"]]]
+    elif bump == "VER":
+        mids = [[before, ["VER"]]]
+    else:  # suspended and re-opened (two version changes), open again when the request takes effect
+        mids = [[max(1, before // 2), ["SUS"]], [before - max(1, before // 2) or 1, ["OPN"]]]
+    used = sum(m[0] for m in mids)
+    ticks = [[2000, ["Q"]]] + mids + [[max(1, eff - used), ["Q"]], [2000, ["Q"]]]
+    script = {}
+    if kind == "place":
+        script[(0, 1)] = [["P", dict(sel=1, side="BACK", price=2.4, size=2.0, mv=mv)]]
+    else:
+        script[(0, 0)] = [["P", dict(sel=1, side="BACK", price=2.6, size=2.0, pers="PERSIST")]]
+        script[(0, 1)] = [["R", 0, 2.4, mv]]
+    spec = simx.MarketSpec(book0={1: {"atb": [[2.0, 10]], "atl": [[2.2, 10]]}, 2: {"atb": [[3.0, 10]], "atl": [[3.2, 10]]}})
+    w = simx.SimWorld([(spec, ticks)], [dict(script=script, kw=dict(max_order_exposure=None, max_selection_exposure=None, max_live_trade_count=5))], cfg=dict(LAT[lat])).run()
+    out = []
+    counts = {"clause:C07.a": 1, "version_cases": 1, "version_lapsed": 0, "version_live": 0}
+    case = dict(version=[kind, mv, bump, lat, gap])
+    if w.run_exception is not None:
+        out.append(core.v("C07.a", (kind, "exception", type(w.run_exception).__name__), "run raised %r" % (w.run_exception,), case))
+        return dict(violations=out, counts=counts, outcome=None)
+    st = w.strategies[0]
+    orders = list(w.all_orders())
+    expect_lapse = mv == "bad" or (mv == "cur" and bump != "none")
+    if kind == "place":
+        o = st.known[0] if st.known else None
+        lapsed = o is not None and o.simulated.size_lapsed == 2.0 and not o.simulated.matched
+        live = o is not None and o.simulated.size_lapsed == 0 and o.status.name == "EXECUTABLE"
+    else:
+        # a refused replacement never joins the blotter (and the original, cancelled, is all there is)
+        lapsed = len(orders) == 1 and not orders[0].simulated.matched
+        live = len(orders) == 2 and orders[1].status.name == "EXECUTABLE" and orders[1].simulated.size_lapsed == 0
+    if expect_lapse:
+        counts["version_lapsed"] += 1
+        if not lapsed:
+            out.append(core.v("C07.a", (kind, "version", "not-lapsed/%s/%s" % (mv, bump)), "%s naming market version %r, %s before it takes effect: not lapsed (orders %s)" % (kind, mv, "version change (%s)" % bump if bump != "none" else "no version change", [(x.status.name, x.simulated.size_lapsed, x.simulated.size_matched) for x in orders]), case))
+    else:
+        counts["version_live"] += 1
+        if not live:
+            out.append(core.v("C07.a", (kind, "version", "lapsed/%s/%s" % (mv, bump)), "%s naming market version %r with %s: not live afterwards (orders %s)" % (kind, mv, "a version change (%s)" % bump if bump != "none" else "no version change", [(x.status.name, x.simulated.size_lapsed, x.simulated.size_matched) for x in orders]), case))
+    return dict(violations=out, counts=counts, outcome=None)
+
+
 def _dedup(vs, per_key=1):
     seen, out = {}, []
     for d in vs:
@@ -375,6 +427,11 @@ def run(tier):
     rep.nontrivial = len(rep.outcomes)
     rep.sample(dict(zip(("dts", "kind", "latency", "bet_delay", "ip_at", "bet_delay_after", "two_markets"), jobs[len(jobs) // 2])))
     rep.sample(dict(zip(("dts", "kind", "latency", "bet_delay", "ip_at", "bet_delay_after", "two_markets"), jobs[-1])))
+    vj = [(k, mv, b, lat, gap) for k in ("place", "replace") for mv in (None, "cur", "bad") for b in ("none", "VER", "SUSOPN") for lat in ("default", "large", "default-async") for gap in (1, 50, 99)]
+    for r in core.pmap(_version_one, vj):
+        rep.add_violations(r["violations"])
+        rep.merge_counts(r["counts"])
+    rep.need("version_cases", "version_lapsed", "version_live")
     rep.bounds = dict(spacings_ms=DTS, max_sequence=n_main, latency_configs=list(LAT), request_kinds=KINDS, runs=len(jobs))
     rep.rule = "every spacing sequence of <=%d updates over %s ms (every default latency boundary +-1 ms) x request kind, plus latency configurations zero/large, bet delays 0/1/5 changing at a turn in-play between request and effect, and an event-grouped second market updating in between; distinct_nontrivial = distinct (kind, effect update) vectors" % (n_main, DTS)
     rep.assumptions = [
@@ -387,6 +444,11 @@ def run(tier):
 
 def replay(rep):
     c = rep["case"]
+    if "version" in c:
+        r = _version_one(tuple(c["version"]))
+        for d in r["violations"]:
+            print(d["key"], d["detail"])
+        return 1 if r["violations"] else 0
     r = _one((tuple(c["dts"]), c["kind"], c["latency"], c["bet_delay"], c["ip_at"], c["bet_delay_after"], c["two_markets"]))
     for d in r["violations"]:
         print(d["key"], d["detail"])
